@@ -104,6 +104,13 @@ def cases(ctx):
         for a in addrs:
             for copier in (False, True):
                 out.append({"copier": copier, "blocks": [[a, _data_runs(rng, n)]]})
+    # 1b. fill blocks (one repeated byte: cleared tables, padding) of the lengths a run-length encoder would care about
+    for n in (1, 3, 4, 5, 8, 100, 65534, 65535, 65536):
+        for v in (0, 0xFF, 0x45):
+            for copier in (False, True):
+                for a in (0, 0x9000, 0x7FFE):
+                    out.append({"copier": copier, "blocks": [[a, [[v, n]]]]})
+                out.append({"copier": copier, "blocks": [[0x100, [[1, 2], [2, 2]]], [0x9000, [[v, n]]], [0x9000 + n, [[7, 3]]]]})
     # 2. sequences of 1-6 writes
     nseq = 700 if tier == "quick" else 22000
     for _ in range(nseq):
